@@ -162,3 +162,30 @@ def rw_workload(ver, maxbuf, variant=0):
             {"op": "seek", "whence": "end", "d": 0, "sym": ""}, {"op": "position"}, w(2000), {"op": "position"}] + FL + \
            [{"op": "cf_flush"}, {"op": "close"}]
     return {"ver": ver, "maxbuf": maxbuf, "mode": "rw_faults", "streams": streams, "ops": ops}
+
+
+def refused_seek_histories(tier):
+    """write (unflushed) -> refused seek (every origin, symbolic extremes) -> position -> flush -> read back"""
+    hs = []
+    f = gens.Fill()
+    bads = [("start", 10 ** 6, ""), ("end", 1, ""), ("end", -(10 ** 6), ""), ("cur", 10 ** 6, ""), ("cur", -(10 ** 6), ""),
+            ("start", 0, "u64max"), ("end", 0, "i64min"), ("cur", 0, "i64min"), ("cur", 0, "i64max"), ("end", 0, "i64max")]
+    i = 0
+    for ver in (3, 4):
+        for mb in (CONFIGS if tier == "thorough" else [1024, None]):
+            for init in (None, 100, 5000):
+                for wn in (10, 700, 1500, 5000):
+                    ops = [{"op": "open"}]
+                    streams = []
+                    if init is None:
+                        ops.append({"op": "create_stream", "name": "a"})
+                    else:
+                        streams = [{"name": "a", "runs": [[f.next(), init]]}]
+                        ops.append({"op": "open_stream", "name": "a"})
+                    for (wh, d, sym) in bads:
+                        ops += [{"op": "write", "runs": [[f.next(), wn]]}, {"op": "position"},
+                                {"op": "seek", "whence": wh, "d": d, "sym": sym}, {"op": "position"}, {"op": "len"}]
+                    ops += [{"op": "flush"}, {"op": "fresh_read"}]
+                    hs.append({"id": f"rs{i}", "ver": ver, "maxbuf": mb, "mode": "plain", "streams": streams, "ops": ops, "hash": True})
+                    i += 1
+    return hs
